@@ -16,6 +16,8 @@ enum Prev {
     Absent,
     Archive,
     Junk,
+    /// an existing zero-length regular file (a name reserved by mkstemp / `touch`, an earlier failed download)
+    Empty,
 }
 
 #[derive(Clone, Debug, Serialize, Deserialize, PartialEq)]
@@ -30,6 +32,10 @@ enum OpKind {
     /// the C API's SFileCreateArchive (libstorm.so built from the current tree); `fileset` holds the creation
     /// disposition (2 CREATE_ALWAYS, 5 TRUNCATE_EXISTING)
     CApiCreate,
+    /// `rebuild_archive`: the archive is built through the rebuild entry point. `fileset` bit 0 = `verify`,
+    /// bit 1 = in place (target path = source path, the previous archive IS the source); otherwise the source is
+    /// `<sandbox>/source.mpq` and the destination has its own previous state
+    Rebuild,
 }
 
 #[derive(Clone, Debug, Serialize, Deserialize)]
@@ -107,6 +113,10 @@ fn expected_new(cfg: &Config) -> Vec<(String, Vec<u8>)> {
             (0..s.files.len()).map(|i| (s.files[i].name.clone(), s.content(i))).collect()
         }
         OpKind::Create | OpKind::CApiCreate => vec![],
+        OpKind::Rebuild => {
+            let s = if cfg.fileset & 2 != 0 { prev_spec(cfg.version) } else { fileset(cfg.version, 0) };
+            (0..s.files.len()).map(|i| (s.files[i].name.clone(), s.content(i))).collect()
+        }
         OpKind::Compact => {
             // prev archive minus the removed file p1
             let s = prev_spec(cfg.version);
@@ -139,6 +149,11 @@ fn op_main(cfg: &Config, dest: &Path) -> ! {
             storm.close(h);
             Ok(())
         })(),
+        OpKind::Rebuild => {
+            let source = if cfg.fileset & 2 != 0 { dest.to_path_buf() } else { dest.parent().unwrap().join("source.mpq") };
+            let opts = wow_mpq::RebuildOptions { verify: cfg.fileset & 1 != 0, ..Default::default() };
+            wow_mpq::rebuild_archive(source.as_path(), dest, opts, None).map(|_| ()).map_err(|e| e.to_string())
+        }
         OpKind::Create => wow_mpq::OpenOptions::new().version(fileset(cfg.version, 0).format_version()).create(dest).map(|_| ()).map_err(|e| e.to_string()),
         OpKind::Compact => (|| {
             let mut m = MutableArchive::open(dest).map_err(|e| e.to_string())?;
@@ -177,6 +192,10 @@ fn setup_prev(cfg: &Config, dest: &Path) -> Result<Option<Vec<u8>>, String> {
             std::fs::write(dest, &junk).map_err(|e| e.to_string())?;
             Ok(Some(junk))
         }
+        (_, Prev::Empty) => {
+            std::fs::write(dest, b"").map_err(|e| e.to_string())?;
+            Ok(Some(vec![]))
+        }
         (_, Prev::Absent) => Ok(None),
     }
 }
@@ -211,6 +230,11 @@ fn trace_case(case: &Case) -> Value {
         std::fs::create_dir_all(sandbox.join("src")).unwrap();
         for i in 0..s.files.len() {
             std::fs::write(sandbox.join("src").join(format!("f{i}.bin")), s.content(i)).unwrap();
+        }
+    }
+    if case.cfg.op == OpKind::Rebuild && case.cfg.fileset & 2 == 0 {
+        if let Err(e) = fileset(case.cfg.version, 0).builder().build(sandbox.join("source.mpq")) {
+            return json!({"setup_err": format!("source build: {e}")});
         }
     }
     let prev_r = setup_prev(&case.cfg, &real);
@@ -269,14 +293,14 @@ fn trace_case(case: &Case) -> Value {
             ));
         }
         "previous" | "absent(previous)" => {
-            if reported == "ok" {
+            if reported == "ok" && !(case.cfg.op == OpKind::Rebuild && case.cfg.fileset & 2 != 0) {
                 verdict = Some((format!("{opn}:reports-ok-but-destination-unchanged"), "the operation returned Ok but the destination still holds the previous state".into()));
             }
         }
         "new-complete" => {
             // (OpenOptions::create is a build followed by an open: an error of the open step comes after a build
             // that succeeded, so only the state of the destination is judged there)
-            if reported == "err" && matches!(case.cfg.op, OpKind::Build | OpKind::BuildFromPaths) {
+            if reported == "err" && matches!(case.cfg.op, OpKind::Build | OpKind::BuildFromPaths) || (reported == "err" && case.cfg.op == OpKind::Rebuild && case.cfg.fileset & 3 == 0) {
                 verdict = Some((format!("{opn}:reports-error-but-destination-replaced"), format!("the build returned an error ({}) yet the destination was replaced", rep.stdout.trim())));
             }
         }
@@ -328,6 +352,14 @@ fn configs() -> Vec<Config> {
             for (disposition, prev) in [(2u8, Prev::Archive), (2, Prev::Absent), (5, Prev::Archive)] {
                 v.push(Config { op: OpKind::CApiCreate, version, prev, fileset: disposition, dest: 0 });
             }
+        }
+        // a reserved (zero-length) destination, under the plain name and under a temp-like name
+        for dest in [0u8, 2] {
+            v.push(Config { op: OpKind::Build, version, prev: Prev::Empty, fileset: 0, dest });
+        }
+        // the rebuild entry point: to another destination (absent / existing archive) and onto itself, verify off/on
+        for (fs, prev) in [(0u8, Prev::Absent), (1, Prev::Archive), (2, Prev::Archive), (3, Prev::Archive)] {
+            v.push(Config { op: OpKind::Rebuild, version, prev, fileset: fs, dest: 0 });
         }
         v.push(Config { op: OpKind::Compact, version, prev: Prev::Archive, fileset: 0, dest: 3 });
         v.push(Config { op: OpKind::Compact, version, prev: Prev::Archive, fileset: 0, dest: 1 });
@@ -386,7 +418,9 @@ fn main() {
             continue;
         }
         let n = r["n_calls"].as_u64().unwrap_or(0) as usize;
-        if r["state"] != "new-complete" || r["reported"] != "ok" {
+        // (an in-place rebuild may reproduce the previous bytes exactly)
+        let same_bytes_ok = cfg.op == OpKind::Rebuild && cfg.fileset & 2 != 0 && r["state"] == "previous";
+        if (r["state"] != "new-complete" && !same_bytes_ok) || r["reported"] != "ok" {
             check.fail(
                 &Fail::new(format!("{:?}:fault-free-run-does-not-produce-the-archive", cfg.op).to_lowercase(), format!("{r}")),
                 serde_json::to_value(Case { cfg: cfg.clone(), mode: Mode::Count }).unwrap(),
